@@ -1,4 +1,5 @@
 """C02 - exotic cells: level masks, per-level hashes, Merkle pruning invariance."""
+import boc
 import cells
 import core
 
@@ -6,7 +7,8 @@ ID = "C02"
 GEN = []
 RULE = ("trees mixing ordinary, pruned-branch (all masks 1..7), library, Merkle-proof and Merkle-update cells, "
         "nesting up to 3 Merkle levels; systematic single pruned cells for all 7 masks; pruning of random "
-        "subtrees below 0..2 Merkle cells; BoC round trip of every tree; non-trivial = contains an exotic cell; "
+        "subtrees below 0..2 Merkle cells; BoC round trip of every tree and parse of a foreign encoding of it with "
+        "stored hashes on every cell; non-trivial = contains an exotic cell; "
         "distinct by DAG text")
 TRUSTED = [
     "Coq 8.16.1 kernel incl. vm_compute; no native_compute",
@@ -89,6 +91,23 @@ def run(ctx):
             ctx.fail("exotic-cell-not-parsed-back", f"after BoC round trip: {r[:80]}", {"dag": d, "route": "boc"})
     ctx.extra["boc_roundtrips"] = nb
 
+    # parse route 2: a foreign conforming encoding of the same tree, every cell carrying stored hashes/depths
+    # (popcount(mask)+1 of them) and random admissible widths: "every such spec-valid cell can be ... parsed"
+    nf = 0
+    for d, a in zip(dags, impl_out):
+        if a.startswith("err") or not spec_valid(d) or len(d) > 60:
+            continue
+        enc = boc.foreign_encode(rng, d, force_hashes=True)
+        if enc is None:
+            continue
+        nf += 1
+        h = enc[0].hex()
+        r = core.call_impl(lambda _: _foreign_route(h), None)
+        if r != a:
+            ctx.fail("exotic-cell-not-parsed-from-foreign-boc", f"stored-hashes BoC {enc[2]}: {r[:80]}",
+                     {"dag": d, "route": "foreign", "boc": h})
+    ctx.extra["foreign_stored_hash_parses"] = nf
+
     # pruning invariance on the implementation
     npr = 0
     for _ in range(ctx.n(150, 2000)):
@@ -134,6 +153,11 @@ def spec_valid(d):
             return False
         masks.append(m)
     return True
+
+
+def _foreign_route(h):
+    from pytoniq_core.boc.cell import Cell
+    return cells.info_py(Cell.one_from_boc(bytes.fromhex(h)))
 
 
 def _boc_route(d):
@@ -200,6 +224,9 @@ def replay(ctx, obj):
     if "dag" in c:
         d = [(t, b, list(r)) for t, b, r in c["dag"]]
         a = core.call_impl(lambda _: cells.info_py(cells.build_py(d)[-1]), None)
+        if c.get("route") == "foreign":
+            r = core.call_impl(lambda _: _foreign_route(c["boc"]), None)
+            return None if r == a else f"stored-hashes BoC parses to something else: {r[:100]}"
         if c.get("route") == "boc":
             r = core.call_impl(lambda _: _boc_route(d), None)
             return None if r == a else f"after BoC round trip: {r[:100]}"
